@@ -18,6 +18,7 @@ import (
 	"github.com/prometheus/prometheus/model/value"
 	"github.com/prometheus/prometheus/storage"
 	"github.com/prometheus/prometheus/tsdb/chunkenc"
+	"github.com/thanos-community/promql-engine/verifhook"
 
 	"verifsim/sched"
 )
@@ -90,6 +91,8 @@ type Cfg struct {
 	SharedLabels bool  `json:"shared_labels,omitempty"` // hand out the very same label slices on every call
 	YieldEvery   int   `json:"yield_every,omitempty"`   // park at every n-th callback (0: never)
 	LatencyUs    int64 `json:"latency_us,omitempty"`    // fake time spent in every callback
+	CtxErrors    bool  `json:"ctx_errors,omitempty"`    // a call that can fail reports the context's error once the context is done, as remote storages do
+	HoldRoutine  bool  `json:"hold_routine,omitempty"`  // every querier runs a goroutine of its own until it is closed (a stream, a reader reference)
 }
 
 type SelectRec struct {
@@ -359,6 +362,13 @@ func (s *Store) cb(ctx context.Context, kind uint8) (injected error) {
 	} else if ye > 0 && n%ye == 0 && kind != KAt && kind != KSSAt && kind != KItErr && kind != KSSErr {
 		sched.Yield("store." + KindNames[kind])
 	}
+	if injected == nil && canFail && s.cfg.CtxErrors && ctx != nil && ctx.Err() != nil {
+		// not an injected fault (the query is cancelled anyway): the storage's way of saying so
+		s.mu.Lock()
+		a.Fired["ctxerr@"+KindNames[kind]]++
+		s.mu.Unlock()
+		return ctx.Err()
+	}
 	return injected
 }
 
@@ -383,6 +393,15 @@ func (s *Store) Querier(ctx context.Context, mint, maxt int64) (storage.Querier,
 		s.acct.Queriers = append(s.acct.Queriers, q.rec)
 		s.mu.Unlock()
 	}
+	if s.cfg.HoldRoutine && !s.plain {
+		// what a real storage holds for an open querier: it lives until Close, so a querier the
+		// engine forgets is a goroutine that outlives the query
+		q.done = make(chan struct{})
+		go func() {
+			defer verifhook.Go("store.querier", 0)()
+			<-q.done
+		}()
+	}
 	return q, nil
 }
 
@@ -391,6 +410,8 @@ type querier struct {
 	ctx        context.Context
 	mint, maxt int64
 	rec        *QuerierRec
+	done       chan struct{}
+	doneOnce   sync.Once
 }
 
 func (q *querier) LabelValues(string, ...*labels.Matcher) ([]string, storage.Warnings, error) {
@@ -408,6 +429,9 @@ func (q *querier) Close() error {
 		q.rec.Closes++
 		q.rec.CloseStep = step
 		q.s.mu.Unlock()
+	}
+	if q.done != nil {
+		q.doneOnce.Do(func() { close(q.done) })
 	}
 	q.s.cb(nil, KClose)
 	return nil
